@@ -441,6 +441,7 @@ func runC05(r *Report) {
 	c05R6(r)
 	c05R7(r)
 	c05R8(r)
+	c05R10(r)
 	// "allocates in proportion to the message": the decoder's frame arithmetic and allocation bounds (C04.R2/R3/R5)
 	// are the first line of that clause, before any handler runs
 	if read := r.P.Func("protocol", "Read"); read != nil {
@@ -683,4 +684,126 @@ func c05R6(r *Report) {
 		})
 	}
 	r.Sentinel("R6", n, 6)
+}
+
+// ---------- R10: memoised bounds are invalidated ----------
+
+// c05R10: a field of Peer that caches a value computed from other fields of the peer (written only by one function,
+// under `field == 0`) must be reset wherever one of those other fields is assigned after construction: the range checks
+// on wire indices use such bounds (pieceLimit), and the metadata a bound depends on arrives while the peer is running —
+// a bound memoised before the metadata was known (maxPieces) would stay in force for the rest of the peer's life.
+func c05R10(r *Report) {
+	p := r.P
+	pn := p.Named("peer", "Peer")
+	if !r.Anchor("R10", "peer.Peer", pn != nil) {
+		return
+	}
+	st, ok := pn.Underlying().(*types.Struct)
+	if !ok {
+		return
+	}
+	type storeSite struct {
+		st *ssa.Store
+		fn *ssa.Function
+	}
+	storesOf := func(fv *types.Var) []storeSite {
+		var out []storeSite
+		for _, acc := range p.fieldAccesses(fv) {
+			fa, ok := acc.Instr.(*ssa.FieldAddr)
+			if !ok {
+				continue
+			}
+			if al, isAl := fa.X.(*ssa.Alloc); isAl && al.Comment == "complit" {
+				continue
+			}
+			for _, ref := range *fa.Referrers() {
+				if s, isSt := ref.(*ssa.Store); isSt && s.Addr == ssa.Value(fa) {
+					out = append(out, storeSite{s, acc.Fn})
+				}
+			}
+		}
+		return out
+	}
+	nMemo := 0
+	for i := 0; i < st.NumFields(); i++ {
+		F := st.Field(i)
+		if !isInteger(F.Type()) {
+			continue
+		}
+		stores := storesOf(F)
+		if len(stores) == 0 {
+			continue
+		}
+		// one writer, at least one store under F == 0
+		writer := enclosingNamed(stores[0].fn)
+		single, memo := true, false
+		for _, s := range stores {
+			if enclosingNamed(s.fn) != writer {
+				single = false
+			}
+			for _, g := range guardsOf(s.st.Block()) {
+				op, x, y, okc := cmpFact(g)
+				if !okc || op != token.EQL {
+					continue
+				}
+				if z, okz := constInt(y); okz && z == 0 {
+					if fv, _ := loadedField(stripIntConv(x)); fv == F {
+						memo = true
+					}
+				}
+			}
+		}
+		if !single || !memo {
+			continue
+		}
+		nMemo++
+		r.Fn(writer)
+		// what the memoised value depends on: fields of Peer read by the writer and its callees in the package
+		deps := map[*types.Var]bool{}
+		seen := map[*ssa.Function]bool{}
+		var collect func(f *ssa.Function, d int)
+		collect = func(f *ssa.Function, d int) {
+			if f == nil || f.Blocks == nil || seen[f] || d > 2 {
+				return
+			}
+			seen[f] = true
+			allInstrs(f, func(in ssa.Instruction) {
+				if fa, ok := in.(*ssa.FieldAddr); ok {
+					if fv := fieldVar(fa); fv != nil && fv != F {
+						for k := 0; k < st.NumFields(); k++ {
+							if st.Field(k) == fv {
+								deps[fv] = true
+							}
+						}
+					}
+				}
+				if cal := calleeOf(in); cal != nil && relPkg(cal) == "peer" {
+					collect(cal, d+1)
+				}
+			})
+		}
+		collect(writer, 0)
+		isReset := func(in ssa.Instruction) bool {
+			s, ok := isStoreToField(in, F)
+			if !ok {
+				return false
+			}
+			z, okz := constInt(s.Val)
+			return okz && z == 0
+		}
+		isRet := func(in ssa.Instruction) bool { _, ok := in.(*ssa.Return); return ok }
+		for D := range deps {
+			for _, s := range storesOf(D) {
+				g := enclosingNamed(s.fn)
+				if g.Name() == "New" {
+					continue
+				}
+				miss, reached := pathsMissing(s.st, -1, isRet, nil, []edgeReq{{Name: "reset", Instr: isReset}})
+				key := fmt.Sprintf("%s/store(%s)-resets-memo(%s)", fname(s.fn), D.Name(), F.Name())
+				r.Check(reached == 0 || len(miss) == 0, "R10", key, s.st.Pos(), "the memoised field is reset where the field it depends on is assigned",
+					fmt.Sprintf("Peer.%s caches a value that %s computes from Peer.%s, but %s assigns Peer.%s without resetting the cache: a bound memoised before the metadata was known stays in force afterwards, so range checks on wire indices keep using the pre-metadata limit and a Have far beyond the last piece is accepted (bitmap and availability arrays grow to the limit)", F.Name(), fname(writer), D.Name(), fname(s.fn), D.Name()))
+			}
+		}
+	}
+	r.Notes = append(r.Notes, fmt.Sprintf("R10: %d memoised integer fields of peer.Peer found", nMemo))
 }
